@@ -1,5 +1,6 @@
 import Txtpp.Lemmas.SinkFacts
 import Txtpp.Lemmas.CleanParse
+import Txtpp.Lemmas.ProjectFacts
 /-!
 # Property C07 — clean removes exactly what build generated and never executes anything
 -/
@@ -10,6 +11,10 @@ open Txt
 every source, also one full of `run` directives -/
 theorem clean_executes_nothing (cfg : Cfg) (fs : FS) (src : Path) (first : Bool) (hm : cfg.mode = .clean) :
     (runPass cfg fs src first).2.log = fs.log := runPass_clean_log cfg fs src first hm
+
+/-- … the same for a complete clean run over any inputs: no command is executed at all -/
+theorem clean_run_executes_nothing (cfg : Cfg) (hm : cfg.mode = .clean) (fs : FS) (inputs : List (List Char)) :
+    (runProject cfg fs inputs).2.log = fs.log := runProject_clean_log cfg hm fs inputs
 
 /-- clean succeeds even when the source contains directive errors (prefix-less multi-line
 directives, missing includes, failing commands, tag misuse, bad temp targets): the line loop of a
